@@ -142,11 +142,13 @@ func (e *Engine) propertyRoots(id string) []*ssa.Function {
 	}
 	for name, f := range e.allFuncs {
 		if f.Pkg != nil && strings.HasPrefix(f.Pkg.Pkg.Path(), modPath) && strings.HasPrefix(f.Name(), "lemma"+id+"_") && f.Blocks != nil && f.Synthetic == "" {
+			if c := e.byFn[name]; c != nil && c.Inline && len(c.Props) == 0 {
+				continue // helper shared by several lemmas: verified where it is inlined
+			}
 			if !seen[f] {
 				seen[f] = true
 				out = append(out, f)
 			}
-			_ = name
 		}
 	}
 	sort.Slice(out, func(i, j int) bool { return out[i].String() < out[j].String() })
@@ -154,14 +156,14 @@ func (e *Engine) propertyRoots(id string) []*ssa.Function {
 }
 
 type CheckRun struct {
-	Property string
-	Tier     string
-	Seed     int
-	Reports  []*FuncReport
-	Results  []*OblResult
-	Trusted  map[string]string
-	wall     time.Duration
-	solverMs int64
+	Property  string
+	Tier      string
+	Seed      int
+	Reports   []*FuncReport
+	Results   []*OblResult
+	Trusted   map[string]string
+	wall      time.Duration
+	solverMs  int64
 	byBackend map[string]int
 }
 
@@ -477,7 +479,7 @@ func (run *CheckRun) Report(e *Engine, writeBaseline, verbose bool) int {
 			rp := filepath.Join(replayDir, "missing-obligations.json")
 			writeJSON(rp, map[string]interface{}{"property": id, "obligation": strings.Join(missing, ", "),
 				"verifier_output": "these obligations were discharged on the unchanged tree and are no longer generated (function or clause removed/renamed): nothing establishes them any more",
-				"failing_input": nil})
+				"failing_input":   nil})
 			violations = append(violations, fmt.Sprintf("VIOLATION property=%s replay=%s no-failing-input-found", id, rp))
 			nObl += len(missing)
 		}
@@ -539,16 +541,16 @@ func (run *CheckRun) Report(e *Engine, writeBaseline, verbose bool) int {
 		"property_id": id, "tier": run.Tier, "seed": run.Seed, "level": "proof",
 		"coverage": map[string]interface{}{
 			"obligations": nObl, "discharged": nDis,
-			"checker_cmd":   "bin/gov check -p " + id + " -tier " + run.Tier + " (VCs generated from go/ssa of /repo, discharged by z3-new / cvc5 / z3)",
-			"trusted_base":  tb,
-			"samples":       samples,
-			"functions_under_contract": fns,
-			"inlined_callees": keys(inl),
-			"by_backend":    run.byBackend,
-			"solver_time_s": float64(run.solverMs) / 1000,
-			"undecided":     undecided,
-			"known_findings": knownLines,
-			"obligation_results": run.Results,
+			"checker_cmd":                        "bin/gov check -p " + id + " -tier " + run.Tier + " (VCs generated from go/ssa of /repo, discharged by z3-new / cvc5 / z3)",
+			"trusted_base":                       tb,
+			"samples":                            samples,
+			"functions_under_contract":           fns,
+			"inlined_callees":                    keys(inl),
+			"by_backend":                         run.byBackend,
+			"solver_time_s":                      float64(run.solverMs) / 1000,
+			"undecided":                          undecided,
+			"known_findings":                     knownLines,
+			"obligation_results":                 run.Results,
 			"safety_checks_folded_by_simplifier": trivial,
 		},
 		"assumptions": assumptions,
